@@ -51,6 +51,11 @@ PURE_EDITS = ("set_values", "set_dtype", "v_append", "v_extend", "v_insert", "v_
 COPY_OPS = ("clone", "export_leaf", "template_clone", "clone_twice")
 
 
+import re as _re
+_UUID = _re.compile(r"[0-9a-f]{8}-[0-9a-f]{4}-[0-9a-f]{4}-[0-9a-f]{4}-[0-9a-f]{12}"
+                   r"|[^\"' ]*odml-verif-[0-9]+-[0-9]+")        # ids, and the per-run sandbox path
+
+
 def differential(res, replay):
     """'No edit of a copy ever changes the original' also in its delayed form: replay the history
     without the operations that only edited copy-derived trees; every object outside those trees
@@ -81,6 +86,14 @@ def differential(res, replay):
                 leave_out.add(st["step"])
     if not leave_out:
         return
+    # an op that quotes an id of this run (a name chosen to equal an existing id) means something
+    # else in a replay whose ids come out differently: such histories are not compared
+    import json as _json
+    _snaps = [s_ for s_ in (res.extra.get("snapshots") or []) if s_ is not None]
+    _text = _json.dumps(res.case["ops"], default=repr)
+    if any(m != "5b6a1b40-2bd4-4a12-8f3c-0a1b2c3d4e5f" and "odml-verif" not in m
+           for m in _UUID.findall(_text)):
+        return          # (the generator's one fixed id is the same text in every run)
     res.stats["differential_replays"] = res.stats.get("differential_replays", 0) + 1
     other = replay(res.case, leave_out)
     # the two runs must have registered the same objects at every step they share: if an op
@@ -105,10 +118,8 @@ def differential(res, replay):
         # ids come from one seeded stream: leaving out an op that draws from it shifts the ids
         # of everything created later; the comparison is about content
         out = dict(rec)
-        oid = out.pop("id", None)
-        if out.get("name") is not None and out["name"][1] == oid:
-            out["name"] = ["str", "<id>"]
-        return out
+        out.pop("id", None)
+        return _json.loads(_UUID.sub("<uuid>", _json.dumps(out, sort_keys=True, default=repr)))
     for i, (ra, rb) in enumerate(zip(final_a["objs"], final_b["objs"])):
         if i in copy_derived:
             continue
